@@ -17,46 +17,51 @@ trap 'rm -rf "$scratch"' EXIT
 summary="$scratch/replay.txt"
 : > "$summary"
 missed=0
-if [ -f $V/seeded/EXPECT.tsv ]; then
-  for s in $(awk -v p="$id" '$2==p {print $1}' $V/seeded/EXPECT.tsv); do
-    wt="$scratch/wt"
-    rm -rf "$wt"; mkdir -p "$wt"
-    (cd "$REPO" && tar --exclude=.git -cf - .) | (cd "$wt" && tar -xf -)
-    if ! (cd "$wt" && git apply --unsafe-paths "$V/seeded/$s/patch.diff" 2>/dev/null || patch -s -p1 < "$V/seeded/$s/patch.diff" >/dev/null 2>&1); then
-      echo "replay $s: skipped (patch does not apply to the current tree)" >> "$summary"
-      continue
-    fi
-    $V/bin/rtcpcheck -prop $id -tier quick -repo "$wt" -out "$scratch/ev.json" > "$scratch/out.txt" 2>&1
+# one scratch copy per job; jobs run four at a time (each check uses several cores itself)
+replay_one() {
+  s=$1; wt="$scratch/wt-$s"
+  mkdir -p "$wt"
+  (cd "$REPO" && tar --exclude=.git -cf - .) | (cd "$wt" && tar -xf -)
+  if ! (cd "$wt" && git apply --unsafe-paths "$V/seeded/$s/patch.diff" 2>/dev/null || patch -s -p1 < "$V/seeded/$s/patch.diff" >/dev/null 2>&1); then
+    echo "replay $s: skipped (patch does not apply to the current tree)"
+  else
+    $V/bin/rtcpcheck -prop $id -tier quick -repo "$wt" -out "$wt/.ev.json" > "$wt/.out.txt" 2>&1
     rc=$?
-    if [ $rc -eq 1 ] && grep -q "^VIOLATION property=$id" "$scratch/out.txt"; then
-      echo "replay $s: caught ($(grep -E '^  (VIOLATED|UNDECIDED)' "$scratch/out.txt" | head -1 | cut -c3-140))" >> "$summary"
+    if [ $rc -eq 1 ] && grep -q "^VIOLATION property=$id" "$wt/.out.txt"; then
+      echo "replay $s: caught ($(grep -E '^  (VIOLATED|UNDECIDED)' "$wt/.out.txt" | head -1 | cut -c3-140))"
     else
-      echo "replay $s: MISSED (exit $rc)" >> "$summary"
-      missed=$((missed+1))
+      echo "replay $s: MISSED (exit $rc)"
     fi
-  done
+  fi
+  rm -rf "$wt"
+}
+guard_one() {
+  d=$1; n=$(echo $d | sed "s#$V/refactors/##" | tr / -); wt="$scratch/wt-$n"
+  mkdir -p "$wt"
+  (cd "$REPO" && tar --exclude=.git -cf - .) | (cd "$wt" && tar -xf -)
+  if ! (cd "$wt" && git apply --unsafe-paths "$d/patch.diff" 2>/dev/null || patch -s -p1 < "$d/patch.diff" >/dev/null 2>&1); then
+    echo "refactoring $n: skipped (patch does not apply to the current tree)"
+  elif $V/bin/rtcpcheck -prop $id -tier quick -repo "$wt" -out "$wt/.ev.json" > "$wt/.out.txt" 2>&1; then
+    echo "refactoring $n: silent"
+  else
+    echo "refactoring $n: ALARM ($(grep -E '^  (VIOLATED|UNDECIDED|FATAL)' "$wt/.out.txt" | head -1 | cut -c3-140))"
+  fi
+  rm -rf "$wt"
+}
+export -f replay_one guard_one
+export id V REPO scratch
+if [ -f $V/seeded/EXPECT.tsv ]; then
+  awk -v p="$id" '$2==p {print $1}' $V/seeded/EXPECT.tsv | xargs -r -P 4 -I{} bash -c 'replay_one {}' | sort >> "$summary"
+  missed=$(grep -c ": MISSED" "$summary")
 fi
 # 1b. false-alarm guard: when the current tree passes the quick check, every behaviour-preserving refactoring of
 #     /verif/refactors applied on top of it must pass as well (reported in the evidence; a miss here is a
 #     warning about the checker, not a statement about the tree, and does not change the exit code)
 alarms=0
 if [ "${VERIF_SKIP_GUARD:-}" = "" ] && $V/bin/rtcpcheck -prop $id -tier quick -repo "$REPO" -out "$scratch/ev0.json" > "$scratch/out0.txt" 2>&1; then
-  for d in $(find $V/refactors -name patch.diff | sort | xargs -n1 dirname); do
-    n=$(echo $d | sed "s#$V/refactors/##" | tr / -)
-    wt="$scratch/wt"
-    rm -rf "$wt"; mkdir -p "$wt"
-    (cd "$REPO" && tar --exclude=.git -cf - .) | (cd "$wt" && tar -xf -)
-    if ! (cd "$wt" && git apply --unsafe-paths "$d/patch.diff" 2>/dev/null || patch -s -p1 < "$d/patch.diff" >/dev/null 2>&1); then
-      echo "refactoring $n: skipped (patch does not apply to the current tree)" >> "$summary"
-      continue
-    fi
-    if $V/bin/rtcpcheck -prop $id -tier quick -repo "$wt" -out "$scratch/ev.json" > "$scratch/out.txt" 2>&1; then
-      echo "refactoring $n: silent" >> "$summary"
-    else
-      echo "refactoring $n: ALARM ($(grep -E '^  (VIOLATED|UNDECIDED|FATAL)' "$scratch/out.txt" | head -1 | cut -c3-140))" >> "$summary"
-      alarms=$((alarms+1))
-    fi
-  done
+  find $V/refactors -name patch.diff | sort | xargs -n1 dirname | xargs -r -P 4 -I{} bash -c 'guard_one {}' | sort > "$scratch/guard.txt"
+  cat "$scratch/guard.txt" >> "$summary"
+  alarms=$(grep -c ": ALARM" "$scratch/guard.txt")
 fi
 export VERIF_REPLAY_SUMMARY="$summary"
 $V/bin/rtcpcheck -prop $id -tier thorough -repo "$REPO"
